@@ -44,6 +44,23 @@ static std::string unhex(std::string const& h){
 	return out;
 }
 
+#include <fstream>
+#include <algorithm>
+static std::string g_tmpdir = "/var/tmp";
+static std::string tmpFile(){ return g_tmpdir + "/c19-" + std::to_string((long)getpid()) + ".txt"; }
+static void writeFile(std::string const& fn, std::string const& bytes){
+	std::ofstream o(fn.c_str(), std::ios::binary); o.write(bytes.data(), std::streamsize(bytes.size()));
+}
+static std::string readFile(std::string const& fn){
+	std::ifstream i(fn.c_str(), std::ios::binary); std::ostringstream os; os << i.rdbuf(); return os.str();
+}
+static std::string hexOf(std::string const& b){
+	if(b.empty()) return "-";
+	static const char* d = "0123456789abcdef"; std::string o;
+	for(unsigned char c: b){ o.push_back(d[c >> 4]); o.push_back(d[c & 15]); }
+	return o;
+}
+
 // exact value rendering, format of Val.render: [-]m^e with m odd, 0^0, nan, inf, -inf
 static std::string val(double x){
 	if(std::isnan(x)) return "nan";
@@ -61,6 +78,7 @@ static std::string showShape(shark::Shape const& s){
 	os << ")"; return os.str();
 }
 
+static bool g_sawNan = false;
 struct Obs{
 	std::ostringstream rows, labels, batches;
 	std::vector<std::string> oracle;
@@ -81,6 +99,7 @@ void showInputs(shark::Data<shark::blas::vector<T> >& in, Obs& o, std::size_t sh
 			bool first = true;
 			for(std::size_t j = 0; j != m.size2(); ++j){
 				if(m(i,j) == 0) continue;
+				if(std::isnan(double(m(i,j)))) g_sawNan = true;
 				if(!first) o.rows << ","; first = false;
 				o.rows << j << "=" << val(m(i,j));
 			}
@@ -171,6 +190,25 @@ std::string observe(D& data, std::size_t expectedElements, std::size_t maxBatch,
 	return os.str();
 }
 
+// a NaN cell needs a reason in the file: '?', an empty cell, or a spelled-out nan.  Judged only for files
+// made of digits, signs, dots, exponents, the separator, blanks and line breaks without empty cells.
+static bool nanUnexplained(std::string const& bytes, char sep){
+	bool ws = std::isspace((unsigned char)sep) || sep == 0;
+	bool cellHasContent = false, lineHasContent = false;
+	for(std::size_t i = 0; i <= bytes.size(); ++i){
+		char c = i == bytes.size() ? '\n' : bytes[i];
+		if(c == '\n' || c == '\r'){
+			if(!ws && lineHasContent && !cellHasContent) return false;   // trailing separator: empty last cell
+			cellHasContent = lineHasContent = false; continue;
+		}
+		if(!ws && c == sep){ if(!cellHasContent) return false; cellHasContent = false; lineHasContent = true; continue; }
+		if(c == ' ' || c == '\t') continue;
+		if(!((c >= '0' && c <= '9') || c == '-' || c == '+' || c == '.' || c == 'e' || c == 'E')) return false;
+		cellHasContent = lineHasContent = true;
+	}
+	return true;
+}
+
 // unlabeled data
 template<class D>
 std::string observeUnlabeled(D& data, std::size_t expectedElements, std::size_t maxBatch, bool safetyOnly){
@@ -219,14 +257,28 @@ static std::size_t csvRecordCount(std::string const& bytes, char comment){
 	return n;
 }
 
+// which of the library's checks fired (evidence only: the check strips ` #kind` before comparing)
+static std::string errKind(shark::Exception const& e){
+	std::string w = e.what();
+	static const char* const kinds[][2] = {
+		{"Failed to parse record", "svm-parse-record"}, {"strictly increasing", "svm-index-order"},
+		{"Number of dimensions supplied", "svm-highestIndex-too-small"}, {"non-integer labels", "svm-label-not-integer"},
+		{"labels can not be smaller", "label-below-minus-one"}, {"negative labels are only", "label-negative-not-binary"},
+		{"Failed to parse file", "csv-parse-file"}, {"Vectors are required to have same size", "csv-row-length"},
+		{"Files must have more columns", "csv-too-few-columns"}, {"different number of columns", "csv-row-length"},
+		{"cannot be opened", "file-open"}, {"failed to open", "file-open"}, {"ecord must not be empty", "export-empty-record"}};
+	for(auto const& k: kinds) if(w.find(k[0]) != std::string::npos) return std::string(" #") + k[1];
+	return " #other";
+}
+
 template<class F>
 std::string guarded(F f, bool safetyOnly){
 	try{
 		g_limit = true;
 		f();
 		g_limit = false;
-	}catch(shark::Exception const&){ g_limit = false; return safetyOnly ? "safety-only" : "shark-exception"; }
-	catch(std::bad_alloc const&){ g_limit = false; return safetyOnly ? "safety-only" : "std-exception bad_alloc"; }
+	}catch(shark::Exception const& e){ g_limit = false; return (safetyOnly ? "safety-only" : "shark-exception") + errKind(e); }
+	catch(std::bad_alloc const&){ g_limit = false; return safetyOnly ? "safety-only #bad_alloc" : "std-exception bad_alloc"; }
 	catch(std::exception const& e){ g_limit = false; return std::string("std-exception ") + e.what() + " !oracle foreign-exception"; }
 	return "";
 }
@@ -246,44 +298,93 @@ std::string runCsv1(std::string const& bytes, char comment, std::size_t maxB, bo
 	os << "] values=[" << vals.str() << "]";
 	std::string out = safetyOnly ? "safety-only" : os.str();
 	if(n != data.numberOfElements()) out += " !oracle numberOfElements-inconsistent";
+	// independent count of the values in the file: maximal runs of non-blank characters outside comments.
+	// Only judged for files made of number characters (a run like "1-2" holds two values).
+	{
+		std::size_t runs = 0, dots = 0, exps = 0; bool in = false, comm = false, plain = true;
+		for(std::size_t i = 0; i != bytes.size(); ++i){
+			char c = bytes[i];
+			if(comm){ if(c == '\n' || c == '\r') comm = false; in = false; continue; }
+			if(c == comment){ comm = true; in = false; continue; }
+			if(c == ' ' || c == '\t' || c == '\n' || c == '\r' || c == '\v' || c == '\f'){ in = false; continue; }
+			if(!in){ ++runs; in = true; dots = exps = 0; if(!((c >= '0' && c <= '9') || c == '-' || c == '+' || c == '.')) plain = false; }
+			else if(!((c >= '0' && c <= '9') || c == '.' || c == 'e' || c == 'E' || ((c == '-' || c == '+') && (bytes[i-1] == 'e' || bytes[i-1] == 'E')))) plain = false;
+			if(c == '.'){ if(++dots > 1 || exps) plain = false; }
+			if(c == 'e' || c == 'E'){ if(++exps > 1) plain = false; }
+		}
+		if(plain && runs != n) out += " !oracle value-count-differs-from-element-count";
+	}
 	if(maxB) for(std::size_t b = 0; b != data.numberOfBatches(); ++b)
 		if(data.batch(b).size() > maxB){ out += " !oracle batch-larger-than-requested"; break; }
 	return out;
 }
 
-template<class D>
-std::string runCsvU(std::string const& bytes, char sep, char comment, std::size_t maxB, bool safetyOnly){
-	D data;
-	std::string e = guarded([&]{ shark::csvStringToData(data, bytes, sep, comment, maxB); }, safetyOnly);
-	if(!e.empty()) return e;
-	return observeUnlabeled(data, csvRecordCount(bytes, comment), maxB, safetyOnly);
+// run `f(fn)` on a temporary file holding `bytes` (the importCSV / importSparseData file overloads)
+template<class F>
+void withFile(std::string const& bytes, F f){
+	std::string fn = tmpFile(); bool lim = g_limit; g_limit = false; writeFile(fn, bytes); g_limit = lim;
+	try{ f(fn); }catch(...){ std::remove(fn.c_str()); throw; }
+	std::remove(fn.c_str());
+}
+static std::string dropTitle(std::string const& bytes, std::size_t k){
+	std::size_t pos = 0;
+	for(; k; --k){ std::size_t nl = bytes.find('\n', pos); if(nl == std::string::npos) return ""; pos = nl + 1; }
+	return bytes.substr(pos);
 }
 template<class D>
-std::string runCsvC(std::string const& bytes, shark::LabelPosition lp, char sep, char comment, std::size_t maxB, bool safetyOnly){
+std::string runCsvU(std::string const& bytes, char sep, char comment, std::size_t maxB, bool safetyOnly, bool viaFile = false, std::size_t title = 0){
 	D data;
-	std::string e = guarded([&]{ shark::csvStringToData(data, bytes, lp, sep, comment, maxB); }, safetyOnly);
+	std::string e = guarded([&]{
+		if(viaFile) withFile(bytes, [&](std::string const& fn){ shark::importCSV(data, fn, sep, comment, maxB, title); });
+		else shark::csvStringToData(data, bytes, sep, comment, maxB);
+	}, safetyOnly);
 	if(!e.empty()) return e;
-	return observe(data, csvRecordCount(bytes, comment), maxB, safetyOnly);
+	g_sawNan = false;
+	std::string obs = observeUnlabeled(data, csvRecordCount(viaFile ? dropTitle(bytes, title) : bytes, comment), maxB, safetyOnly);
+	if(g_sawNan && nanUnexplained(viaFile ? dropTitle(bytes, title) : bytes, sep)) obs += " !oracle nan-without-missing-value-marker";
+	return obs;
 }
 template<class D>
-std::string runCsvR(std::string const& bytes, shark::LabelPosition lp, std::size_t nout, char sep, char comment, std::size_t maxB, bool safetyOnly){
+std::string runCsvC(std::string const& bytes, shark::LabelPosition lp, char sep, char comment, std::size_t maxB, bool safetyOnly, bool viaFile = false){
 	D data;
-	std::string e = guarded([&]{ shark::csvStringToData(data, bytes, lp, nout, sep, comment, maxB); }, safetyOnly);
+	std::string e = guarded([&]{
+		if(viaFile) withFile(bytes, [&](std::string const& fn){ shark::importCSV(data, fn, lp, sep, comment, maxB); });
+		else shark::csvStringToData(data, bytes, lp, sep, comment, maxB);
+	}, safetyOnly);
 	if(!e.empty()) return e;
-	return observe(data, csvRecordCount(bytes, comment), maxB, safetyOnly);
+	g_sawNan = false;
+	std::string obs = observe(data, csvRecordCount(bytes, comment), maxB, safetyOnly);
+	if(g_sawNan && nanUnexplained(bytes, sep)) obs += " !oracle nan-without-missing-value-marker";
+	return obs;
+}
+template<class D>
+std::string runCsvR(std::string const& bytes, shark::LabelPosition lp, std::size_t nout, char sep, char comment, std::size_t maxB, bool safetyOnly, bool viaFile = false){
+	D data;
+	std::string e = guarded([&]{
+		if(viaFile) withFile(bytes, [&](std::string const& fn){ shark::importCSV(data, fn, lp, nout, sep, comment, maxB); });
+		else shark::csvStringToData(data, bytes, lp, nout, sep, comment, maxB);
+	}, safetyOnly);
+	if(!e.empty()) return e;
+	g_sawNan = false;
+	std::string obs = observe(data, csvRecordCount(bytes, comment), maxB, safetyOnly);
+	if(g_sawNan && nanUnexplained(bytes, sep)) obs += " !oracle nan-without-missing-value-marker";
+	return obs;
 }
 
 template<class D>
-std::string runSvm(std::string const& bytes, unsigned int dims, std::size_t bs, bool safetyOnly){
+std::string runSvm(std::string const& bytes, unsigned int dims, std::size_t bs, bool safetyOnly, bool viaFile = false){
 	D data;
-	try{
-		std::istringstream in(bytes);
-		g_limit = true;
-		shark::importSparseData(data, in, dims, bs);
-		g_limit = false;
-	}catch(shark::Exception const&){ g_limit = false; return safetyOnly ? "safety-only" : "shark-exception"; }
-	catch(std::bad_alloc const&){ g_limit = false; return safetyOnly ? "safety-only" : "std-exception bad_alloc"; }
-	catch(std::exception const& e){ g_limit = false; return std::string("std-exception ") + e.what() + " !oracle foreign-exception"; }
+	std::string e = guarded([&]{
+		if(viaFile){
+			std::string fn = tmpFile(); g_limit = false; writeFile(fn, bytes); g_limit = true;
+			try{ shark::importSparseData(data, fn, dims, bs); }catch(...){ std::remove(fn.c_str()); throw; }
+			std::remove(fn.c_str());
+		}else{
+			std::istringstream in(bytes);
+			shark::importSparseData(data, in, dims, bs);
+		}
+	}, safetyOnly);
+	if(!e.empty()) return e;
 	return observe(data, svmRecordCount(bytes), bs, safetyOnly);
 }
 
@@ -291,8 +392,6 @@ std::string runSvm(std::string const& bytes, unsigned int dims, std::size_t bs, 
 // values are dyadic (k/4) so that the printed precision (10 resp. 6 digits) is exact.
 static double rtCell(std::size_t seed, std::size_t e, std::size_t j){ return (double((seed * 7 + e * 3 + j * 5) % 11) - 5) / 4; }
 static unsigned rtLabel(std::size_t seed, std::size_t e){ return unsigned(e % (2 + seed % 2)); }
-static std::string g_tmpdir = "/var/tmp";
-
 inline bool sameLabel(unsigned int a, unsigned int b){ return a == b; }
 template<class A, class B> bool sameLabel(A const& a, B const& b){
 	shark::RealVector x(a), y(b);
@@ -380,6 +479,206 @@ static std::string runRt(std::vector<std::string> const& t){
 	return out;
 }
 
+
+// ---- exporters on arbitrary datasets given in the op, written file compared byte for byte with the
+// model's printer; then the file is imported again (file overloads) and the round trip is judged by an
+// independent oracle: values equal up to the printed precision, labels equal up to the importer's shift.
+static double parseVal(std::string const& t){
+	if(t == "nan") return std::numeric_limits<double>::quiet_NaN();
+	if(t == "inf") return std::numeric_limits<double>::infinity();
+	if(t == "-inf") return -std::numeric_limits<double>::infinity();
+	bool neg = t[0] == '-'; std::size_t c = t.find('^');
+	double m = double(std::stoull(t.substr(neg ? 1 : 0, c - (neg ? 1 : 0)))); int e = std::stoi(t.substr(c + 1));
+	double x = std::ldexp(m, e); return neg ? -x : x;
+}
+static bool closeTo(double orig, double back, double rel){
+	if(std::isnan(orig)) return std::isnan(back);
+	if(std::isinf(orig) || std::isinf(back)) return orig == back || (std::isinf(back) && std::fabs(orig) > 1.79e308);
+	return std::fabs(orig - back) <= rel * std::fabs(orig) + 5e-324;
+}
+template<class V> shark::RealVector denseOf(V const& v, std::size_t dim){
+	shark::RealVector r(dim, 0.0); shark::RealVector d(v);
+	for(std::size_t i = 0; i != d.size() && i != dim; ++i) r(i) = d(i);
+	return r;
+}
+// orig/back: dense copies of inputs; returns "" or an oracle tag
+static std::string rtInputs(std::vector<shark::RealVector> const& a, std::vector<shark::RealVector> const& b, double rel){
+	if(a.size() != b.size()) return "roundtrip-element-count";
+	for(std::size_t i = 0; i != a.size(); ++i){
+		if(a[i].size() != b[i].size()) return "roundtrip-dimension";
+		for(std::size_t j = 0; j != a[i].size(); ++j) if(!closeTo(a[i](j), b[i](j), rel)) return "roundtrip-value";
+	}
+	return "";
+}
+static std::string rtClassLabels(std::vector<unsigned> const& a, std::vector<unsigned> const& b){
+	if(a.size() != b.size()) return "roundtrip-label-count";
+	unsigned mn = a.empty() ? 0 : *std::min_element(a.begin(), a.end());
+	for(std::size_t i = 0; i != a.size(); ++i) if(a[i] - mn != b[i]) return "roundtrip-label";
+	return "";
+}
+template<class D> std::vector<shark::RealVector> inputsOf(D const& data, std::size_t dim){
+	std::vector<shark::RealVector> r;
+	for(auto const& e: data.elements()) r.push_back(denseOf(e, dim));
+	return r;
+}
+template<class D> std::size_t dimOf(D const& data){ return data.numberOfElements() ? shark::RealVector(data.element(0)).size() : 0; }
+
+template<class VT>
+std::string xcsvRun(std::vector<std::string> const& t){
+	using namespace shark;
+	typedef typename VT::value_type T;
+	std::string kind = t[1]; bool f32 = t[2] == "f32";
+	LabelPosition lp = t[3] == "F" ? FIRST_COLUMN : LAST_COLUMN;
+	std::size_t nout = std::stoull(t[4]); char sep = char(std::stoul(t[5])); bool sci = t[6] == "1";
+	unsigned width = unsigned(std::stoul(t[7])); std::size_t maxB = std::stoull(t[8]), n = std::stoull(t[9]), dim = std::stoull(t[10]);
+	std::size_t per = dim + (kind == "c" ? 1 : kind == "r" ? nout : 0);
+	if(t.size() != 11 + n * per) return "bad-op";
+	std::vector<VT> in(n, VT(dim)), reg(n, VT(nout)); std::vector<unsigned> lab(n);
+	std::size_t k = 11;
+	for(std::size_t e = 0; e != n; ++e){
+		for(std::size_t j = 0; j != dim; ++j) in[e](j) = T(parseVal(t[k++]));
+		if(kind == "c") lab[e] = unsigned(std::stoul(t[k++]));
+		if(kind == "r") for(std::size_t j = 0; j != nout; ++j) reg[e](j) = T(parseVal(t[k++]));
+	}
+	double rel = f32 ? 0.0 : (sci ? 0.5e-10 : 0.5e-9);
+	std::string fn = tmpFile(), bytes, imp, tag;
+	std::vector<RealVector> origIn; for(auto const& v: in) origIn.push_back(RealVector(v));
+	try{
+		if(kind == "u"){
+			Data<VT> orig, back; if(n) orig = createDataFromRange(in, 3);
+			exportCSV(orig, fn, sep, sci, width); bytes = readFile(fn);
+			imp = guarded([&]{ importCSV(back, fn, sep, '#', maxB); }, false);
+			if(imp.empty()){ imp = observeUnlabeled(back, n, maxB, false); tag = rtInputs(origIn, inputsOf(back, dimOf(back)), rel); }
+		}else if(kind == "c"){
+			LabeledData<VT, unsigned int> orig, back; if(n) orig = createLabeledDataFromRange(in, lab, 3);
+			exportCSV(orig, fn, lp, sep, sci, width); bytes = readFile(fn);
+			imp = guarded([&]{ importCSV(back, fn, lp, sep, '#', maxB); }, false);
+			if(imp.empty()){
+				imp = observe(back, n, maxB, false); tag = rtInputs(origIn, inputsOf(back.inputs(), dimOf(back.inputs())), rel);
+				std::vector<unsigned> bl; for(auto l: back.labels().elements()) bl.push_back(l);
+				if(tag.empty()) tag = rtClassLabels(lab, bl);
+			}
+		}else{
+			LabeledData<VT, VT> orig, back; if(n) orig = createLabeledDataFromRange(in, reg, 3);
+			exportCSV(orig, fn, lp, sep, sci, width); bytes = readFile(fn);
+			imp = guarded([&]{ importCSV(back, fn, lp, nout, sep, '#', maxB); }, false);
+			if(imp.empty()){
+				imp = observe(back, n, maxB, false); tag = rtInputs(origIn, inputsOf(back.inputs(), dimOf(back.inputs())), rel);
+				std::vector<RealVector> ol; for(auto const& v: reg) ol.push_back(RealVector(v));
+				if(tag.empty()) tag = rtInputs(ol, inputsOf(back.labels(), dimOf(back.labels())), rel);
+			}
+		}
+	}catch(shark::Exception const& e){ std::remove(fn.c_str()); return "exp=shark-exception" + errKind(e); }
+	std::remove(fn.c_str());
+	std::string out = "exp=" + hexOf(bytes) + " imp=" + imp;
+	if(!tag.empty()) out += " !oracle " + tag;
+	return out;
+}
+static std::string runXcsv(std::vector<std::string> const& t){
+	try{ return t[2] == "f32" ? xcsvRun<shark::FloatVector>(t) : xcsvRun<shark::RealVector>(t); }
+	catch(std::exception const& e){ return std::string("std-exception ") + e.what() + " !oracle foreign-exception"; }
+}
+
+
+template<class T> void putCell(shark::blas::vector<T>& v, std::size_t i, T x){ v(i) = x; }
+template<class T> void putCell(shark::blas::compressed_vector<T>& v, std::size_t i, T x){ v.set_element(v.end(), i, x); }
+template<class VT> void fill(shark::LabeledData<VT, unsigned int>& d, std::vector<VT> const& in, std::vector<unsigned> const& lab, std::vector<shark::RealVector> const&, std::size_t n){
+	if(n) d = shark::createLabeledDataFromRange(in, lab, 3);
+}
+template<class VT> void fill(shark::LabeledData<VT, shark::RealVector>& d, std::vector<VT> const& in, std::vector<unsigned> const&, std::vector<shark::RealVector> const& reg, std::size_t n){
+	if(n) d = shark::createLabeledDataFromRange(in, reg, 3);
+}
+template<class VT> void doExport(shark::LabeledData<VT, unsigned int> const& d, std::string const& fn, bool omo, bool srt, bool append){
+	shark::exportSparseData(d, fn, omo, srt, append);
+}
+template<class VT> void doExport(shark::LabeledData<VT, shark::RealVector> const& d, std::string const& fn, bool, bool, bool append){
+	shark::exportSparseData(d, fn, append);
+}
+template<class VT> std::string labelOracle(shark::LabeledData<VT, unsigned int>& back, std::vector<unsigned> const& lab, std::vector<shark::RealVector> const&, std::size_t n, std::size_t reps){
+	std::vector<unsigned> bl; for(auto l: back.labels().elements()) bl.push_back(l);
+	std::vector<unsigned> all; for(std::size_t r = 0; r != reps; ++r) all.insert(all.end(), lab.begin(), lab.end());
+	return rtClassLabels(all, bl);
+}
+template<class VT, class LV> std::string labelOracle(shark::LabeledData<VT, LV>& back, std::vector<unsigned> const&, std::vector<shark::RealVector> const& reg, std::size_t n, std::size_t reps){
+	std::size_t i = 0;
+	for(auto const& l: back.labels().elements()){
+		if(l.size() != 1 || !closeTo(reg[i % n](0), l(0), 0.5e-5)) return "roundtrip-label";
+		++i;
+	}
+	return i == n * reps ? "" : "roundtrip-label-count";
+}
+// xsvm <d|s> <c|r> <f64|f32> <dims> <bs> <oneMinusOne> <sort> <append> <n> <dim> <elements...>
+template<class VT, class LT, class BackT>
+std::string xsvmRun(std::vector<std::string> const& t){
+	using namespace shark;
+	typedef typename VT::value_type T;
+	bool sparse = t[1] == "s", cls = t[2] == "c", f32 = t[3] == "f32";
+	unsigned dims = unsigned(std::stoul(t[4])); std::size_t bs = std::stoull(t[5]);
+	bool omo = t[6] == "1", srt = t[7] == "1", app = t[8] == "1";
+	std::size_t n = std::stoull(t[9]), dim = std::stoull(t[10]);
+	std::vector<VT> in(n, VT(dim)); std::vector<unsigned> lab(n); std::vector<RealVector> reg(n, RealVector(1));
+	std::size_t k = 11;
+	for(std::size_t e = 0; e != n; ++e){
+		if(sparse){
+			if(k >= t.size()) return "bad-op";
+			std::size_t nnz = std::stoull(t[k++]);
+			if(k + 2 * nnz + 1 > t.size()) return "bad-op";
+			for(std::size_t j = 0; j != nnz; ++j){ std::size_t idx = std::stoull(t[k++]); T v = T(parseVal(t[k++])); putCell(in[e], idx, v); }
+		}else{
+			if(k + dim + 1 > t.size()) return "bad-op";
+			for(std::size_t j = 0; j != dim; ++j) putCell(in[e], j, T(parseVal(t[k++])));
+		}
+		if(cls) lab[e] = unsigned(std::stoul(t[k++])); else reg[e](0) = parseVal(t[k++]);
+	}
+	if(k != t.size()) return "bad-op";
+	std::string fn = tmpFile(), bytes, imp, tag;
+	std::vector<RealVector> origIn; for(auto const& v: in) origIn.push_back(denseOf(v, dim));
+	std::remove(fn.c_str());
+	BackT back;
+	try{
+		LabeledData<VT, LT> orig;
+		fill(orig, in, lab, reg, n);
+		for(int rep = 0; rep != (app ? 2 : 1); ++rep) doExport(orig, fn, omo, srt, rep == 1);
+		bytes = readFile(fn);
+		imp = guarded([&]{ importSparseData(back, fn, dims, bs); }, false);
+	}catch(shark::Exception const& e){ std::remove(fn.c_str()); return "exp=shark-exception" + errKind(e); }
+	std::remove(fn.c_str());
+	if(imp.empty()){
+		std::size_t reps = app ? 2 : 1;
+		imp = observe(back, n * reps, bs, false);
+		// independent round-trip oracle (%.6g: six significant digits; float inputs: nine would be needed, so 6 digits too)
+		std::vector<RealVector> bi = inputsOf(back.inputs(), dim);
+		std::size_t bdim = dimOf(back.inputs());
+		if(n && bdim > dim && !(dims > dim)) tag = "roundtrip-dimension";
+		if(n && dims == dim && bdim != dim) tag = "roundtrip-dimension";
+		if(bi.size() != n * reps) tag = "roundtrip-element-count";
+		if(tag.empty() && !srt) for(std::size_t r = 0; r != reps && tag.empty(); ++r){
+			std::vector<RealVector> part(bi.begin() + r * n, bi.begin() + (r + 1) * n);
+			tag = rtInputs(origIn, part, 0.5e-5);
+		}
+		if(tag.empty() && !srt) tag = labelOracle(back, lab, reg, n, reps);
+	}
+	std::string out = "exp=" + hexOf(bytes) + " imp=" + imp;
+	if(!tag.empty()) out += " !oracle " + tag;
+	return out;
+}
+
+static std::string runXsvm(std::vector<std::string> const& t){
+	using namespace shark;
+	bool sparse = t[1] == "s", cls = t[2] == "c", f32 = t[3] == "f32";
+	try{
+		if(!sparse && cls && !f32) return xsvmRun<RealVector, unsigned int, LabeledData<RealVector, unsigned int> >(t);
+		if(!sparse && cls &&  f32) return xsvmRun<FloatVector, unsigned int, LabeledData<FloatVector, unsigned int> >(t);
+		if( sparse && cls && !f32) return xsvmRun<CompressedRealVector, unsigned int, LabeledData<CompressedRealVector, unsigned int> >(t);
+		if( sparse && cls &&  f32) return xsvmRun<CompressedFloatVector, unsigned int, LabeledData<CompressedFloatVector, unsigned int> >(t);
+		if(!sparse && !cls && !f32) return xsvmRun<RealVector, RealVector, LabeledData<RealVector, RealVector> >(t);
+		if(!sparse && !cls &&  f32) return xsvmRun<FloatVector, RealVector, LabeledData<FloatVector, FloatVector> >(t);
+		if( sparse && !cls && !f32) return xsvmRun<CompressedRealVector, RealVector, LabeledData<CompressedRealVector, RealVector> >(t);
+		if( sparse && !cls &&  f32) return xsvmRun<CompressedFloatVector, RealVector, LabeledData<CompressedFloatVector, FloatVector> >(t);
+	}catch(std::exception const& e){ return std::string("std-exception ") + e.what() + " !oracle foreign-exception"; }
+	return "bad-op";
+}
+
 int main(int argc, char** argv){
 	using namespace shark;
 	if(argc > 1) g_tmpdir = argv[1];
@@ -390,19 +689,20 @@ int main(int argc, char** argv){
 		if(t.empty()){ std::cout << "\n"; continue; }
 		std::string out = "bad-op";
 		alarm(20);
-		if(t[0] == "svm" && t.size() == 8){
+		if((t[0] == "svm" || t[0] == "svmf") && t.size() == 8){
+			bool vf = t[0] == "svmf";
 			bool sparse = t[1] == "s", cls = t[2] == "c", f32 = t[3] == "f32", safety = t[6] == "S";
 			unsigned int dims = (unsigned int)std::stoul(t[4]);
 			std::size_t bs = std::stoull(t[5]);
 			std::string bytes = unhex(t[7]);
-			if(!sparse && cls && !f32) out = runSvm<LabeledData<RealVector, unsigned int> >(bytes, dims, bs, safety);
-			if(!sparse && cls &&  f32) out = runSvm<LabeledData<FloatVector, unsigned int> >(bytes, dims, bs, safety);
-			if(!sparse && !cls && !f32) out = runSvm<LabeledData<RealVector, RealVector> >(bytes, dims, bs, safety);
-			if(!sparse && !cls &&  f32) out = runSvm<LabeledData<FloatVector, FloatVector> >(bytes, dims, bs, safety);
-			if( sparse && cls && !f32) out = runSvm<LabeledData<CompressedRealVector, unsigned int> >(bytes, dims, bs, safety);
-			if( sparse && cls &&  f32) out = runSvm<LabeledData<CompressedFloatVector, unsigned int> >(bytes, dims, bs, safety);
-			if( sparse && !cls && !f32) out = runSvm<LabeledData<CompressedRealVector, RealVector> >(bytes, dims, bs, safety);
-			if( sparse && !cls &&  f32) out = runSvm<LabeledData<CompressedFloatVector, FloatVector> >(bytes, dims, bs, safety);
+			if(!sparse && cls && !f32) out = runSvm<LabeledData<RealVector, unsigned int> >(bytes, dims, bs, safety, vf);
+			if(!sparse && cls &&  f32) out = runSvm<LabeledData<FloatVector, unsigned int> >(bytes, dims, bs, safety, vf);
+			if(!sparse && !cls && !f32) out = runSvm<LabeledData<RealVector, RealVector> >(bytes, dims, bs, safety, vf);
+			if(!sparse && !cls &&  f32) out = runSvm<LabeledData<FloatVector, FloatVector> >(bytes, dims, bs, safety, vf);
+			if( sparse && cls && !f32) out = runSvm<LabeledData<CompressedRealVector, unsigned int> >(bytes, dims, bs, safety, vf);
+			if( sparse && cls &&  f32) out = runSvm<LabeledData<CompressedFloatVector, unsigned int> >(bytes, dims, bs, safety, vf);
+			if( sparse && !cls && !f32) out = runSvm<LabeledData<CompressedRealVector, RealVector> >(bytes, dims, bs, safety, vf);
+			if( sparse && !cls &&  f32) out = runSvm<LabeledData<CompressedFloatVector, FloatVector> >(bytes, dims, bs, safety, vf);
 		}
 		if(t[0] == "rt" && t.size() >= 8) out = runRt(t);
 		if(t[0] == "csv1" && t.size() == 6){
@@ -411,20 +711,25 @@ int main(int argc, char** argv){
 			if(t[1] == "int") out = runCsv1<int>(bytes, comment, maxB, safety);
 			if(t[1] == "uint") out = runCsv1<unsigned int>(bytes, comment, maxB, safety);
 			if(t[1] == "f64") out = runCsv1<double>(bytes, comment, maxB, safety);
+			if(t[1] == "f32") out = runCsv1<float>(bytes, comment, maxB, safety);
 		}
-		if(t[0] == "csv" && t.size() == 10){
-			bool f32 = t[2] == "f32", safety = t[8] == "S";
+		if(t[0] == "xcsv" && t.size() >= 11) out = runXcsv(t);
+		if(t[0] == "xsvm" && t.size() >= 11) out = runXsvm(t);
+		if((t[0] == "csv" && t.size() == 10) || (t[0] == "csvf" && t.size() == 11)){
+			bool vf = t[0] == "csvf"; std::size_t o = vf ? 1 : 0;
+			bool f32 = t[2] == "f32", safety = t[8 + o] == "S";
 			LabelPosition lp = t[3] == "F" ? FIRST_COLUMN : LAST_COLUMN;
 			std::size_t nout = std::stoull(t[4]);
 			char sep = char(std::stoul(t[5])), comment = char(std::stoul(t[6]));
 			std::size_t maxB = std::stoull(t[7]);
-			std::string bytes = unhex(t[9]);
-			if(t[1] == "u" && !f32) out = runCsvU<Data<RealVector> >(bytes, sep, comment, maxB, safety);
-			if(t[1] == "u" &&  f32) out = runCsvU<Data<FloatVector> >(bytes, sep, comment, maxB, safety);
-			if(t[1] == "c" && !f32) out = runCsvC<LabeledData<RealVector, unsigned int> >(bytes, lp, sep, comment, maxB, safety);
-			if(t[1] == "c" &&  f32) out = runCsvC<LabeledData<FloatVector, unsigned int> >(bytes, lp, sep, comment, maxB, safety);
-			if(t[1] == "r" && !f32) out = runCsvR<LabeledData<RealVector, RealVector> >(bytes, lp, nout, sep, comment, maxB, safety);
-			if(t[1] == "r" &&  f32) out = runCsvR<LabeledData<FloatVector, FloatVector> >(bytes, lp, nout, sep, comment, maxB, safety);
+			std::size_t title = vf ? std::stoull(t[8]) : 0;
+			std::string bytes = unhex(t[9 + o]);
+			if(t[1] == "u" && !f32) out = runCsvU<Data<RealVector> >(bytes, sep, comment, maxB, safety, vf, title);
+			if(t[1] == "u" &&  f32) out = runCsvU<Data<FloatVector> >(bytes, sep, comment, maxB, safety, vf, title);
+			if(t[1] == "c" && !f32) out = runCsvC<LabeledData<RealVector, unsigned int> >(bytes, lp, sep, comment, maxB, safety, vf);
+			if(t[1] == "c" &&  f32) out = runCsvC<LabeledData<FloatVector, unsigned int> >(bytes, lp, sep, comment, maxB, safety, vf);
+			if(t[1] == "r" && !f32) out = runCsvR<LabeledData<RealVector, RealVector> >(bytes, lp, nout, sep, comment, maxB, safety, vf);
+			if(t[1] == "r" &&  f32) out = runCsvR<LabeledData<FloatVector, FloatVector> >(bytes, lp, nout, sep, comment, maxB, safety, vf);
 		}
 		alarm(0);
 		std::cout << out << "\n" << std::flush;
